@@ -23,6 +23,8 @@ pub enum OpK {
     /// around to an identifier that is still in flight (done with the hook setter; the setter is
     /// validated against the hook-free history in every C07 run).
     Age,
+    /// `Connection::handle_disconnect()`: the application itself declares the connection lost.
+    MarkDead,
 }
 
 impl OpK {
@@ -42,6 +44,7 @@ impl OpK {
             OpK::IntoInner => "into_inner",
             OpK::Sleep => "sleep",
             OpK::Age => "age-identifier-counter",
+            OpK::MarkDead => "handle_disconnect",
         }
     }
     pub fn ends_connection(&self) -> bool {
